@@ -50,6 +50,7 @@ func c19(c *Ctx) {
 	c.abandonedProducersAreDrained()
 	c.plainSendsAreTabled()
 	c.consumersDrainUntilClosed()
+	c.connectionsCloseWithTheServer()
 }
 
 // ---- R19.9 ---------------------------------------------------------------------------------
@@ -1708,4 +1709,67 @@ func (c *Ctx) consumersDrainUntilClosed() {
 		R.Check(bad == "", "R19.12", c.name(c.ownerFn(f))+"|"+c.name(f)+" drains until closed", P.Pos(f.Pos()), "every return follows the observation that the channel is closed", "the consumer of a pushed-response channel can return ("+bad+") while the channel is still open: the next blocking push never completes and everything behind it hangs")
 	}
 	R.Min("R19.12", "consumers of handed response channels", n, 2)
+}
+
+// connectionsCloseWithTheServer (R19.13): stopping the server closes every accepted connection.
+func (c *Ctx) connectionsCloseWithTheServer() {
+	P, R := c.P, c.R
+	R.Explain("R19.13", "Close reaches sessions in any protocol state: in Server.serve every connection received from the accept channel has its Close deferred in serve itself (a defer of the function that returns when the server stops), before the session goroutine is spawned - not only inside the per-connection goroutine.  A session that has not logged in has no state whose Done channel could stop it and its reader is blocked in conn.Read; closing the connection from serve is the only thing that ends it, otherwise the connection and three goroutines outlive Server.Close.")
+	f := c.fn("R19.13", "gluon.(*Server).serve")
+	if f == nil {
+		f = c.fnOpt("(*Server).serve")
+	}
+	if f == nil {
+		return
+	}
+	n := 0
+	// connections: values of type net.Conn received in serve (select recv / <-ch)
+	isConn := func(t types.Type) bool { return engine.IsNamed(t, "net", "Conn") }
+	var conns []ssa.Value
+	for _, b := range f.Blocks {
+		for _, in := range b.Instrs {
+			v, ok := in.(ssa.Value)
+			if !ok {
+				continue
+			}
+			switch t := in.(type) {
+			case *ssa.Extract:
+				if _, isSel := t.Tuple.(*ssa.Select); isSel && isConn(t.Type()) {
+					conns = append(conns, v)
+				}
+				if u, isRecv := t.Tuple.(*ssa.UnOp); isRecv && u.Op == token.ARROW && isConn(t.Type()) {
+					conns = append(conns, v)
+				}
+			case *ssa.UnOp:
+				if t.Op == token.ARROW && isConn(t.Type()) {
+					conns = append(conns, v)
+				}
+			}
+		}
+	}
+	for _, conn := range conns {
+		n++
+		ok := false
+		for _, b := range f.Blocks {
+			for _, in := range b.Instrs {
+				d, isDefer := in.(*ssa.Defer)
+				if !isDefer {
+					continue
+				}
+				if d.Call.IsInvoke() && d.Call.Method.Name() == "Close" && sameOrCell(d.Call.Value, conn) {
+					ok = true
+				}
+				// defer func() { conn.Close() }()
+				if fn := engine.FuncValue(d.Call.Value); fn != nil {
+					for _, cs := range engine.Calls(fn) {
+						if cs.Common().IsInvoke() && cs.Common().Method.Name() == "Close" && isConn(cs.Common().Value.Type()) {
+							ok = true
+						}
+					}
+				}
+			}
+		}
+		R.Check(ok, "R19.13", c.name(f)+"|accepted connection closed when serve returns", P.Pos(conn.Pos()), "defer conn.Close() in serve", "an accepted connection is not closed by a defer of Server.serve: when the server stops, sessions that are not logged in keep their connection and goroutines")
+	}
+	R.Min("R19.13", "connections accepted in Server.serve", n, 1)
 }
